@@ -18,12 +18,12 @@ MAP = [
     ("acquire-video-runtime/src/runtime/channel.c", ["C01", "C03", "C04", "C06"]),
     ("acquire-video-runtime/src/acquire.c", ["C07", "C08", "C04", "C06", "C09"]),
     ("acquire-video-runtime/src/runtime/source.c", ["C04", "C07", "C09", "C08"]),
-    ("acquire-video-runtime/src/runtime/sink.c", ["C04", "C09", "C07", "C06"]),
+    ("acquire-video-runtime/src/runtime/sink.c", ["C04", "C09", "C08", "C07", "C06"]),
     ("acquire-video-runtime/src/runtime/filter.c", ["C10", "C05", "C07", "C04"]),
     ("acquire-video-runtime/src/runtime/frame_iterator.c", ["C10", "C04"]),
     ("acquire-video-runtime/src/runtime/vfslice.c", ["C04", "C09"]),
     ("acquire-core-libs/src/acquire-device-hal/device/hal/camera.c", ["C11", "C08", "C04"]),
-    ("acquire-core-libs/src/acquire-device-hal/device/hal/storage.c", ["C11", "C08", "C04"]),
+    ("acquire-core-libs/src/acquire-device-hal/device/hal/storage.c", ["C11", "C16", "C08", "C04"]),
     ("acquire-core-libs/src/acquire-device-hal/device/hal/driver.c", ["C11", "C12"]),
     ("acquire-core-libs/src/acquire-device-hal/device/hal/device.manager.cpp", ["C12", "C08"]),
     ("acquire-core-libs/src/acquire-device-properties/device/props/storage.c", ["C13"]),
